@@ -24,7 +24,7 @@ RULE = ("one case = (state type, architecture nv<=4, parameters with all biases 
         "basis) and positive states. Non-trivial: all biases/weights non-zero, phase network non-zero, and (for "
         "complex/mixed) at least one rotated row; distinct by sha256(parameters, data, bases). Cases whose reference "
         "condition number kappa > 1e5 are executed and logged but not verdict-bearing.")
-REQUIRED = ["gradient_vectors_compared", "exact_gradient_vectors_compared", "oned_forms_compared",
+REQUIRED = ["states_used_before_with_other_parameters", "gradient_vectors_compared", "exact_gradient_vectors_compared", "oned_forms_compared",
             "metamorphic_checks", "cases_with_Y"]
 ANCHOR_FILES = ["qucumber/nn_states/neural_state.py", "qucumber/nn_states/complex_wavefunction.py",
                 "qucumber/nn_states/density_matrix.py", "qucumber/nn_states/positive_wavefunction.py"]
@@ -87,7 +87,19 @@ def run_case(case, ctx):
     na = int(rng.integers(1, 4))
     scales = SC if rng.random() < 0.85 else [1.0, 3.0, 10.0]
     am, ph = gen.draw_model(rng, kind, n, nh, na, scales=scales)
-    st = gen.make_state(kind, am, ph)
+    if case["rep"] % 2 == 0 and case["t"] != "single" or (case["t"] == "single" and len(case["basis"]) % 2 == 0):
+        def warm(s_):
+            sp_ = s_.generate_hilbert_space()
+            if kind == "positive":
+                s_.gradient(sp_), s_.compute_exact_gradients(sp_, sp_)
+            else:
+                b_ = np.array([list("XYZ"[: n] + "Z" * max(0, n - 3))] * len(sp_), dtype=str).reshape(len(sp_), n)
+                s_.gradient(sp_, b_), s_.compute_exact_gradients(sp_, sp_, b_)
+        st, how = gen.make_state_used(rng, kind, am, ph, warm)
+        ctx.count("states_used_before_with_other_parameters")
+        ctx.seen("parameter_change_idioms", how)
+    else:
+        st = gen.make_state(kind, am, ph)
     N = int(rng.integers(1, 13))
     V = R.space(n)
     rows = V[rng.integers(0, len(V), size=N)]
